@@ -1039,7 +1039,11 @@ func safeCall(fun reflect.Value, args []reflect.Value) (res []reflect.Value, err
 // evalChainCallee evaluates the path that follows a call, f(x).a.b, with the
 // call's result bound under the path's root.
 func (c *compiler) evalChainCallee(node *ast.CallExpression, result interface{}) (interface{}, error) {
-	octx := c.ctx.(*Context)
+	octx, ok := c.ctx.(*Context)
+	if !ok {
+		// Exec accepts any hctx.Context; forking the scope needs plush's own
+		return nil, fmt.Errorf("expected a *plush.Context to evaluate in, got %T", c.ctx)
+	}
 	defer func() {
 		c.ctx = octx
 	}()
@@ -1061,7 +1065,11 @@ func (c *compiler) evalChainCallee(node *ast.CallExpression, result interface{})
 }
 
 func (c *compiler) evalForExpression(node *ast.ForExpression) (interface{}, error) {
-	octx := c.ctx.(*Context)
+	octx, ok := c.ctx.(*Context)
+	if !ok {
+		// Exec accepts any hctx.Context; forking the scope needs plush's own
+		return nil, fmt.Errorf("expected a *plush.Context to evaluate in, got %T", c.ctx)
+	}
 	defer func() {
 		c.ctx = octx
 	}()
@@ -1318,7 +1326,11 @@ func (c *compiler) evalArrayLiteral(node *ast.ArrayLiteral) (interface{}, error)
 }
 
 func (c *compiler) evalIndexCallee(rv reflect.Value, node *ast.IndexExpression) (interface{}, error) {
-	octx := c.ctx.(*Context)
+	octx, ok := c.ctx.(*Context)
+	if !ok {
+		// Exec accepts any hctx.Context; forking the scope needs plush's own
+		return nil, fmt.Errorf("expected a *plush.Context to evaluate in, got %T", c.ctx)
+	}
 	defer func() {
 		c.ctx = octx
 	}()
